@@ -17,7 +17,7 @@ func TestMain(m *testing.M) { ev.Main(m, "C01", "exploration") }
 
 // Case is the replayable case of C01.
 type Case struct {
-	Level string       `json:"level"` // "L1" (rib API) or "L2" (server, in-process streams)
+	Level string       `json:"level"` // "L1" (rib API), "L2" (server, in-process streams) or "L3" (server behind real gRPC over bufconn)
 	H     hgen.History `json:"h"`
 	// L2 only
 	Batch     []int `json:"batch,omitempty"`     // sizes of the ModifyRequests the ops are packed into
@@ -29,7 +29,7 @@ type Case struct {
 
 func setup() {
 	c := ev.C()
-	c.Rule = "histories of ADD/REPLACE/DELETE over ipv4/ipv6/mpls/nhg/nh in 3 network instances with a small colliding key universe (rapid, model-aimed) plus all histories of length<=3 over a 24-step alphabet, run against rib.RIB (L1) and server.Modify/Get over in-process streams (L2); after every step: relation model, pure fold of acknowledged ops, held-set and counter invariants. Non-trivial = history in which an acknowledged ADD/REPLACE changed an installed key's payload, or an acknowledged DELETE removed an installed key, or a held op was acknowledged later, or a flush left entries in other NIs; distinct by FNV-64 of the canonical case JSON."
+	c.Rule = "histories of ADD/REPLACE/DELETE over ipv4/ipv6/mpls/nhg/nh in 3 network instances with a small colliding key universe (rapid, model-aimed) plus all histories of length<=3 over a 24-step alphabet, run against rib.RIB (L1), server.Modify/Get over in-process streams (L2) and - one L2 history in four - the same server behind a real grpc.Server over bufconn (L3: real codec, HTTP/2 streams); after every step: relation model, pure fold of acknowledged ops, held-set and counter invariants. Non-trivial = history in which an acknowledged ADD/REPLACE changed an installed key's payload, or an acknowledged DELETE removed an installed key, or a held op was acknowledged later, or a flush left entries in other NIs; distinct by FNV-64 of the canonical case JSON."
 	c.Assumptions = []string{
 		"payload generators only emit schema-valid values (labels 16..1048575, canonical prefixes, non-empty metadata)",
 		"installed state at L1 is read through RIBContents + rib.Concrete*Proto, the converters Get uses",
@@ -39,7 +39,7 @@ func setup() {
 
 func runCase(c Case) *ev.Verdict {
 	switch c.Level {
-	case "L2":
+	case "L2", "L3":
 		return runL2(c)
 	}
 	v, tr := l1.Run(c.H, l1.Opts{P: "C01", Trusted: true, ObserveEvery: c.Every})
